@@ -1773,12 +1773,7 @@ class AdvancedTag(object):
 
             @return - String of current value of "style" after change is made.
         '''
-        myAttributes = self._attributes
-
-        if 'style' not in myAttributes:
-            myAttributes['style'] = "%s: %s" %(styleName, styleValue)
-        else:
-            setattr(myAttributes['style'], styleName, styleValue)
+        setattr(self.style, styleName, styleValue)
 #        setattr(self.style, styleName, styleValue)
 
     def setStyles(self, styleUpdatesDict):
